@@ -117,7 +117,7 @@ def generate(rng, tier):
     special_w = [1, 2, 3, 5, 10, B - 1, B - 2, B >> 1, (B >> 1) + 1, (B >> 1) - 1, 0xffffffff, 1 << 32, (1 << 32) + 1]
     special_d = [B, B + 1, B + 2, 2 * B - 1, 2 * B, (B * B) - 1, (B * B) >> 1, ((B * B) >> 1) + 1, ((B * B) >> 1) - 1,
                  (B - 1) * B, (B - 1) * B + 1, B * B - B - 1, 3 * B + 7, (1 << 100) + 12345]
-    n3 = 700 if quick else 12000
+    n3 = 700 if quick else 40000
     for i in range(n3):
         if rng.random() < 0.5:
             b = rng.choice(special_w) if rng.random() < 0.4 else divisor(rng, 1)
@@ -140,7 +140,7 @@ def generate(rng, tier):
 
     # ---- 4. ConstDivisor remainder with a one-word divisor whose top bit is set and a two-word
     #         dividend (both sides of `high word < divisor`)
-    for i in range(60 if quick else 600):
+    for i in range(60 if quick else 3000):
         b = rng.getrandbits(W) | (B >> 1)
         hi = rng.choice([b - 1, b, b + 1, B - 1, rng.randrange(0, B)]) % B
         a = (hi << W) | rng.getrandbits(W)
@@ -148,7 +148,7 @@ def generate(rng, tier):
 
     # ---- 5. multi-word divisors: a = q*b + r, size classes around THRESHOLD_SIMPLE on BOTH the
     #         divisor length and the quotient length; q's top word all ones; r in {0,1,b-1,..}
-    n5 = 1400 if quick else 20000
+    n5 = 1400 if quick else 80000
     for i in range(n5):
         nb = rng.choice([3, 3, 4, 5] + sz)
         nq = rng.choice([0, 1, 1, 2, 3] + sz)
@@ -160,7 +160,7 @@ def generate(rng, tier):
         yield emit(rng, any_form(rng), a, b)
 
     # ---- 6. quotient carry: the top n words of a are >= b
-    for i in range(250 if quick else 4000):
+    for i in range(250 if quick else 15000):
         nb = rng.choice([3, 4, 5, THR, THR + 1, THR + 2, 40])
         b = divisor(rng, nb)
         extra = rng.choice([0, 1, 2, 3, THR, THR + 1, THR + 2])
@@ -170,7 +170,7 @@ def generate(rng, tier):
         yield emit(rng, any_form(rng), a, b)
 
     # ---- 7. estimate too large (add-back): b = d*B^(n-2) + (B^(n-2) - 1), a = Q * d * B^(n-2) (+ low)
-    for i in range(250 if quick else 4000):
+    for i in range(250 if quick else 15000):
         nb = rng.choice([3, 4, 5, 8, THR, THR + 1, 40])
         d = rng.getrandbits(2 * W) | (1 << rng.choice([2 * W - 1, 2 * W - 1, 2 * W - 2, 2 * W - 7, W + 1]))
         d &= (1 << (2 * W)) - 1
@@ -182,7 +182,7 @@ def generate(rng, tier):
         yield emit(rng, any_form(rng), a, b)
 
     # ---- 8. dividend top word equal to divisor top word (estimate = B-1 branch), a just below b<<k
-    for i in range(200 if quick else 3000):
+    for i in range(200 if quick else 10000):
         nb = rng.choice([3, 4, 5, THR, THR + 1, 40])
         b = divisor(rng, nb)
         k = rng.choice([1, 2, 3, THR + 1])
@@ -190,7 +190,7 @@ def generate(rng, tier):
         yield emit(rng, any_form(rng), max(a, 0), b)
 
     # ---- 9. a < b, a = b, a = 0, same length with a random
-    for i in range(250 if quick else 3000):
+    for i in range(250 if quick else 10000):
         nb = rng.choice([1, 2, 3, 4, THR, THR + 1, 40])
         b = divisor(rng, nb)
         a = rng.choice([0, 1, b - 1, b, b + 1, 2 * b - 1, 2 * b, nat_pattern(rng, nb, "random"),
@@ -198,7 +198,7 @@ def generate(rng, tier):
         yield emit(rng, any_form(rng), a, b)
 
     # ---- 10. fully random structured operands
-    n10 = 500 if quick else 8000
+    n10 = 500 if quick else 30000
     for i in range(n10):
         na = rng.choice(sz + [0, 1, 2, 3])
         nb = rng.choice(sz + [1, 2, 3])
@@ -210,15 +210,15 @@ def generate(rng, tier):
 
     # ---- 11. thorough: long operands and Burnikel–Ziegler sizes (divisor > 32 and quotient > 32 words)
     if not quick:
-        for i in range(400):
-            nb = rng.choice([33, 40, 64, 65, 100, 128, 129, 200, 256, 500, 1000, 1500])
+        for i in range(4000):
+            nb = rng.choice([33, 34, 35, 40, 64, 65, 100, 128, 129, 200, 256, 500, 1000, 1500])
             nq = rng.choice([33, 34, 64, 65, 100, 129, 300, 1000, 1500])
             if nb + nq > 3000:
                 nq = 3000 - nb
             b = divisor(rng, nb)
             a = quotient(rng, nq) * b + remainder(rng, b)
             yield emit(rng, any_form(rng), a, b)
-        for i in range(150):
+        for i in range(1000):
             na = rng.choice([1000, 2000, 3000])
             nb = rng.choice([1, 2, 3, 5, 31, 32, 33, 34, 100, 999, 1499])
             a = nat_pattern(rng, na, rng.choice(PATTERNS))
@@ -232,9 +232,9 @@ GEN_AUDIT = ["Dashu.Audit.GenInt"]
 
 _C02 = ["truncating_conventions", "euclidean_conventions",
         "div_by_word_exact", "div_by_dword_exact", "rem_by_word_exact", "rem_by_dword_exact",
-        "knuth_step_exact", "simple_div_rem_exact", "div_rem_large_exact",
+        "knuth_step_exact", "simple_div_rem_exact", "burnikel_ziegler_exact", "div_rem_large_exact",
         "ubig_div_rem_exact", "ubig_div_exact", "ubig_rem_exact", "ubig_division_identity",
-        "ubig_is_multiple_of_exact",
+        "ubig_is_multiple_of_exact", "is_multiple_of_const_exact",
         "ibig_div_exact", "ibig_rem_exact", "ibig_div_rem_exact", "ibig_div_euclid_exact",
         "ibig_rem_euclid_exact", "ibig_div_rem_euclid_exact", "ubig_ibig_rem_exact",
         "ubig_ibig_div_rem_exact", "ibig_is_multiple_of_exact",
@@ -252,17 +252,17 @@ REFINED = [
     "cmp::cmp_same_len, mul::sub_mul_word_same_len_in_place (carry_plus_max)",
     "div::simple::div_rem_highest_word (Knuth D: estimate never too small / too large by <= 1, borrow>lhs_top correction, both debug_asserts)",
     "div::simple::div_rem_in_place (quotient carry, loop)",
+    "div::divide_conquer::{div_rem_in_place, div_rem_in_place_same_len, div_rem_in_place_small_quotient} (Burnikel-Ziegler: block loop, 2m/m estimate, add_signed_mul update, conditional sub_same_len, `while rem_overflow < 0` loop terminates within 4 rounds, all asserts) relative to the add_signed_mul contract",
     "div::normalize, div::div_rem_unshifted_in_place (q_top), div::div_rem_in_place (algorithm choice)",
     "div_ops::repr::{div_rem_in_lhs, div_rem_large, div_large, rem_large, div_rem_dword, div_rem_large_dword, rem_large_dword}",
     "DivRem / Div / Rem for TypedRepr (all four size-class arms, zero divisor -> panic_divide_by_0)",
     "TypedRepr::add_one; impl_ibig_div, impl_ibig_rem, impl_ibig_divrem, impl_ibig_div_euclid, impl_ibig_rem_euclid, impl_ibig_divrem_euclid, impl_ubig_ibig_rem, impl_ubig_ibig_divrem (model glue = glue regenerated from /repo = Int.tdiv/tmod resp. ediv/emod)",
-    "UBig::is_multiple_of, IBig::is_multiple_of",
+    "UBig::is_multiple_of, IBig::is_multiple_of, is_multiple_of_const (non-zero double-word divisor)",
     "ConstDivisor::new (single/double/large, zero -> divide-by-zero panic), value(); div_rem_small_single, div_rem_small_double, ConstSingleDivisor::{rem_dword, rem_large}, ConstDoubleDivisor::{rem_dword, rem_large}; Div / Rem / DivRem<&ConstDivisor> for TypedRepr, IBig forms",
 ]
 FRONTIER = [
-    "div::divide_conquer::div_rem_in_place (Burnikel-Ziegler; reached only when divisor > 32 words AND quotient > 32 words): modelled as its specification `divRemInPlaceDCFrontier`",
-    "num-modular Normalized2by1Divisor / Normalized3by2Divisor (div_rem_1by1/2by1/2by2/3by2/4by2, `new`): contract parameters = exact floor division guarded by the crate's own preconditions",
-    "TypedReprRef::is_multiple_of_dword (is_multiple_of_const): modelled and run for non-zero divisors, no theorem in Props/C02 (it is rem_by_word / rem_by_dword, which are proved)",
+    "mul::add_signed_mul as called by Burnikel-Ziegler (`subMulContract`): contract parameter = exact c - a*b with signed carry; the multiplication kernels are C01's subject",
+    "num-modular Normalized2by1Divisor / Normalized3by2Divisor (div_rem_1by1/2by1/2by2/3by2/4by2, `new`): contract parameters = exact floor division guarded by the crate's own preconditions (every precondition is proved at each call site)",
 ]
 RULE = ("corpus, then: every form (u/i/ui/iu x div,rem,divrem,diveuclid,remeuclid,divremeuclid,ismultiple; ConstDivisor cdiv,crem,cdivrem,cdivrem2 "
         "for UBig and IBig; is_multiple_of_const; ConstDivisor::value/from_word/from_dword) x {zero divisor with dividends of each representation class; "
@@ -272,24 +272,28 @@ RULE = ("corpus, then: every form (u/i/ui/iu x div,rem,divrem,diveuclid,remeucli
         "quotient-carry dividends (top n words >= b); estimate-too-large constructions (b = d*B^(n-2) + all-ones low part, a = Q*d*B^(n-2)); dividend top word = divisor top word; "
         "a<b, a=b, a=0; ConstDivisor one-word divisors with top bit set x two-word dividends around `high word < divisor`; random structured operands}; signs random. "
         "Thorough adds 3000-word dividends and Burnikel-Ziegler sizes up to 1500 x 1500 words. Every case runs all ownership/assign call forms in the harness. "
+        "Measured reach of the quick tier (Python replay of the branch conditions over the generated cases): Knuth steps 33845 of which estimate=B-1 3970 and add-back 384; "
+        "quotient carry 390 (simple) + 48 (B-Z); shift carry > 0 611; normalisation shift = 0 922 / > 0 1970; B-Z 234 cases; power-of-two word divisors 143, double-word 225 "
+        "(19 with 2^W exactly); odd leftover word 482; lhs shorter than divisor 157; zero divisor 140; ConstDivisor single/double/large x inline/heap all > 40 each. "
         "Non-trivial := some operand >= 3 words; distinct := distinct (op,args) lines.")
 EXPLANATION = ("Theorems (all W >= 1, all lengths): the word-divisor and double-word-divisor loops, the power-of-two shortcuts, Knuth D (estimate, correction, loop, quotient carry), "
-               "normalize / unshifted division / remainder shift-back, the four size-class arms of `/`, `%`, div_rem on magnitudes, zero divisor = documented panic in every form, "
+               "Burnikel-Ziegler (relative to the add_signed_mul contract), normalize / unshifted division / remainder shift-back, the four size-class arms of `/`, `%`, div_rem on magnitudes, zero divisor = documented panic in every form, "
                "is_multiple_of, ConstDivisor (new/value and Div/Rem/DivRem for UBig and IBig) = plain division. The IBig and mixed sign tables executed by the model are proved equal "
-               "to the glue regenerated from /repo's macros (Tie A), whose meaning (Int.tdiv/tmod, Int.ediv/emod) is proved in Props/GenInt. Burnikel-Ziegler is at the model frontier "
-               "(defined as its spec); num-modular's dividers are contract parameters.")
+               "to the glue regenerated from /repo's macros (Tie A), whose meaning (Int.tdiv/tmod, Int.ediv/emod) is proved in Props/GenInt. Contract parameters: num-modular's dividers "
+               "and mul::add_signed_mul (used by Burnikel-Ziegler).")
 ASSUMPTIONS = ["num-modular 0.6 Normalized2by1Divisor::div_rem_2by1 / div_rem_1by1 and Normalized3by2Divisor::div_rem_2by2 / 3by2 / 4by2 return exact floor quotient and remainder when their documented precondition (a_hi < divisor) holds; `new` requires the top bit set",
                "u64::leading_zeros, trailing_zeros, is_power_of_two, <<, >>, &, | at their documented meaning",
-               "Burnikel-Ziegler (divisor > 32 words and quotient > 32 words) is tied to the model by the correspondence run only"]
+               "mul::add_signed_mul(c, Negative, a, b) (called by Burnikel-Ziegler) leaves c - a*b modulo B^len(c) and returns the signed carry (C01's kernels)"]
 TRUSTED = ["num-modular division primitives at their contract (exercised through every case of the correspondence)"]
 LEVEL_TEXT = ("Machine-checked Lean 4 theorems, for every word size W >= 1 and every operand length, that the mirrored division code of dashu-int (single- and double-word divisor "
               "loops with their power-of-two shortcuts, Knuth algorithm D with normalisation, top-word correction and quotient carry, the size-class dispatch, the zero-divisor panic "
               "in every form, the truncating and Euclidean sign conventions, is_multiple_of, and ConstDivisor in all three classes) computes exactly a = q*b + r with the documented "
               "conventions; the hand-written model is tied to /repo on every run by differential execution of model and real code over structured operands around every branch condition, "
-              "all call forms, and the sign tables additionally by regeneration from the macro source. The divide-and-conquer algorithm (divisor and quotient both > 32 words) is at the "
-              "model frontier: decided by the correspondence against exact Nat division, not by a refinement theorem.")
+              "all call forms, and the sign tables additionally by regeneration from the macro source. The divide-and-conquer algorithm (Burnikel-Ziegler, divisor and quotient both > 32 words) "
+              "is refined relative to the contract of the multiplication it calls.")
 LEVEL_NOTE = ("Trusted: Lean kernel; axioms propext/Classical.choice/Quot.sound; num-modular's division primitives and std bit intrinsics at their documented contracts (modelled as exact "
               "floor division guarded by the crate's own preconditions, every precondition proved at each call site); the correspondence harness and generators (sampling) for the tie "
-              "model<->code; the Burnikel-Ziegler kernel is modelled as its specification, not verified. Finding recorded and fixed in /repo (commit 2941615): ConstDivisor `%` with a "
+              "model<->code; mul::add_signed_mul inside Burnikel-Ziegler is a contract parameter (multiplication is C01). Finding recorded and fixed in /repo (commit 2941615): ConstDivisor `%` with a "
               "normalised one-word divisor and an inline dividend whose high word is >= the divisor.")
 TECHNIQUE = "Lean 4 refinement proofs (induction over word lists, all W) + differential correspondence model vs real code + sign tables regenerated from source"
+READY = True
